@@ -97,7 +97,7 @@ def generate(seed, index, tier):
         case["tree"] = _built_tree(ch)
     else:
         case["source"] = "doc"
-        case["doc"] = gd.gen_doc(ch, max_elems=ch.int(2, 12), max_depth=3)
+        case["doc"] = gd.gen_doc(ch, max_elems=ch.int(2, 12), max_depth=3, extra_kinds=index % 9 in (1, 4), use_heavy=index % 9 == 7)
         case["reify"] = ch.coin(0.6)
         case["ppi"] = ch.choice([96.0, 96.0, 72.0])
     gens = []
